@@ -51,7 +51,8 @@ class C10(Prop):
     rule = ("contents written by the real writers from random ordinal / categorical / matching instances, each "
             "re-rendered with random per-line padding, one of LF/CRLF/CR and extra spaces; all four entry points x "
             "header_only in {False, True}; all 6 extensions x 3 classes for the gate; non-trivial = content with >= 2 "
-            "ballot/edge lines")
+            "ballot/edge lines; parse_str is also called with file_name left to its default and with all arguments positional "
+            "in the documented order; file_name is compared (the content carries its own FILE NAME line)")
     budget = {"quick": 400, "thorough": 5000}
     anchors = [("preflibtools.instances.preflibinstance.instance", "PrefLibInstance." + n) for n in
                ("parse_lines", "parse_file", "parse_str", "parse_url")] + \
